@@ -756,8 +756,64 @@ fn confusion_cases() -> Vec<Case> {
     out
 }
 
-fn fixed_histories() -> Vec<Case> {
+/// containers that hold the HANDLE of a live child collection as a key, a value or a member:
+/// no query on the container may touch the child (every query command, hit and miss), and the
+/// child is read afterwards
+fn nested_query_cases() -> Vec<Case> {
     let mut out = vec![];
+    // ops: 0 child array [a,b,c]; 1 map; 2 map_put map child one; 3 map_put map k child; 4 outer array [child, x];
+    //      5 set_new; 6 set_put set child
+    let base = || vec![
+        Op { cmd: "array".into(), args: vec![lit("a"), lit("b"), lit("c")] },
+        Op { cmd: "map".into(), args: vec![] },
+        Op { cmd: "map_put".into(), args: vec![Arg::Ref(1), Arg::Ref(0), lit("one")] },
+        Op { cmd: "map_put".into(), args: vec![Arg::Ref(1), lit("k"), Arg::Ref(0)] },
+        Op { cmd: "array".into(), args: vec![Arg::Ref(0), lit("x")] },
+        Op { cmd: "set_new".into(), args: vec![lit("m")] },
+        Op { cmd: "set_put".into(), args: vec![Arg::Ref(5), Arg::Ref(0)] },
+    ];
+    let queries: Vec<(&str, usize, Vec<Arg>)> = vec![
+        ("map_contains_value", 1, vec![lit("one")]),
+        ("map_contains_value", 1, vec![lit("absent")]),
+        ("map_contains_value", 1, vec![Arg::Ref(0)]),
+        ("map_contains_key", 1, vec![lit("k")]),
+        ("map_contains_key", 1, vec![Arg::Ref(0)]),
+        ("map_contains_key", 1, vec![lit("absent")]),
+        ("map_get", 1, vec![lit("k")]),
+        ("map_keys", 1, vec![]),
+        ("map_size", 1, vec![]),
+        ("map_is_empty", 1, vec![]),
+        ("array_contains", 4, vec![lit("x")]),
+        ("array_contains", 4, vec![Arg::Ref(0)]),
+        ("array_contains", 4, vec![lit("absent")]),
+        ("array_join", 4, vec![lit(",")]),
+        ("array_length", 4, vec![]),
+        ("array_is_empty", 4, vec![]),
+        ("array_get", 4, vec![lit("0")]),
+        ("array_concat", 4, vec![Arg::Ref(4)]),
+        ("set_contains", 5, vec![Arg::Ref(0)]),
+        ("set_contains", 5, vec![lit("absent")]),
+        ("set_to_array", 5, vec![]),
+        ("set_size", 5, vec![]),
+        ("set_is_empty", 5, vec![]),
+        ("set_from_array", 4, vec![]),
+    ];
+    for (q, target, extra) in queries {
+        let mut ops = base();
+        let mut a = vec![Arg::Ref(target)];
+        a.extend(extra);
+        ops.push(Op { cmd: q.to_string(), args: a });
+        // the child is still what it was
+        ops.push(Op { cmd: "is_array".into(), args: vec![Arg::Ref(0)] });
+        ops.push(Op { cmd: "array_length".into(), args: vec![Arg::Ref(0)] });
+        ops.push(Op { cmd: "array_join".into(), args: vec![Arg::Ref(0), lit("-")] });
+        out.push(Case { req: enc_ops(&ops), in_domain: true, nontrivial: true, tags: vec!["nested-handle-query"] });
+    }
+    out
+}
+
+fn fixed_histories() -> Vec<Case> {
+    let mut out = nested_query_cases();
     let mut add = |ops: Vec<(&str, Vec<Arg>)>, tag: &'static str| {
         let ops: Vec<Op> = ops.into_iter().map(|(c, a)| Op { cmd: c.to_string(), args: a }).collect();
         out.push(Case { req: enc_ops(&ops), in_domain: true, nontrivial: true, tags: vec![tag] });
